@@ -463,8 +463,31 @@ fn phase_a_paths(ctx: &Ctx) -> Vec<PathSpec> {
 	let want = paths.len() + ctx.budget.a_random_paths;
 	while paths.len() < want && guard < 100_000 {
 		guard += 1;
-		let depth = 1 + p.below(4) as u8;
-		let ps = gen_path(&mut p, depth, false);
+		let ps = if p.bool() {
+			// a neighbour of a path already in the list: one component changed, one level
+			// added or one level dropped (a derivation that ignores a component or a level
+			// then yields a collision)
+			let mut q = paths[p.usize_below(paths.len())].clone();
+			match p.below(3) {
+				0 if q.depth > 0 => {
+					let i = p.usize_below(q.depth as usize);
+					q.d[i] = if p.bool() { q.d[i] ^ 1 } else { gen_child(&mut p, false) };
+				}
+				1 if q.depth < 4 => {
+					q.d[q.depth as usize] = gen_child(&mut p, false);
+					q.depth += 1;
+				}
+				_ if q.depth > 0 => {
+					q.depth -= 1;
+					q.d[q.depth as usize] = 0;
+				}
+				_ => {}
+			}
+			q
+		} else {
+			let depth = 1 + p.below(4) as u8;
+			gen_path(&mut p, depth, false)
+		};
 		if seen.insert(ps.clone()) {
 			paths.push(ps);
 		}
@@ -2179,9 +2202,9 @@ fn main() {
 	let mut budget = run.tier.pick(
 		Budget {
 			a_seeds: 4,
-			a_random_paths: 25,
+			a_random_paths: 40,
 			a_boundary_depth: 2,
-			a_boundary_samples: 40,
+			a_boundary_samples: 28,
 			b_cases: 1500,
 			c_cases: 20_000,
 			d_cases: 280,
@@ -2194,9 +2217,9 @@ fn main() {
 		},
 		Budget {
 			a_seeds: 8,
-			a_random_paths: 150,
+			a_random_paths: 200,
 			a_boundary_depth: 3,
-			a_boundary_samples: 100,
+			a_boundary_samples: 80,
 			b_cases: 18_000,
 			c_cases: 100_000,
 			d_cases: 3300,
@@ -2277,8 +2300,9 @@ fn main() {
 	};
 
 	run.set_rule(
-		"Cases are generated from (--seed, phase, index). A: every seed of the tier x (all paths of depth 0..4 over child \
-		 numbers {0,1,2^31-1,2^31,u32::MAX} + random paths) x amounts {0,1,2^32,2^63,2^64-1,random} x {Regular,None}: \
+		"Cases are generated from (--seed, phase, index). A: every seed of the tier x (all paths over child numbers \
+		 {0,1,2^31-1,2^31,u32::MAX} up to depth 2 (quick) / 3 (thorough) + sampled deeper boundary paths + random paths + \
+		 neighbours of listed paths differing in one component or one level) x amounts {0,1,2^32,2^63,2^64-1,random} x {Regular,None}: \
 		 derive_key/commit twice on one keychain and on a second from_seed(same seed), all commitments/keys of distinct \
 		 inputs pairwise distinct. B: stratified (depth, amount class, switch, builder) + random seed/path: proof::create -> \
 		 verify -> rewind with same builder, with a builder over a fresh keychain of the same seed, with builders of another \
